@@ -128,9 +128,12 @@ func (dss *dataStoreSet) flushAll(owner *dataStoreCommand) {
 	}
 	dss.mu.Unlock()
 
-	// locks of several data stores are taken one after the other
-	multiDataStoreLock.Lock()
-	defer multiDataStoreLock.Unlock()
+	// Locks of several data stores are taken one after the other. A transaction takes the
+	// multi data store lock itself, before it takes ownership of its data store (see fnExec).
+	if owner == nil {
+		multiDataStoreLock.Lock()
+		defer multiDataStoreLock.Unlock()
+	}
 
 	for _, ds := range stores {
 		dsc := ds.newDataStoreCommand()
